@@ -1071,6 +1071,48 @@ func (fr *frame) loopEnv(li *loopInfo, st *State, phiVals map[*ssa.Phi]TV) *Env 
 				}
 			}
 		}
+		if name == "$i" {
+			// a counting loop written with an explicit index (i := 0; ...; i++): the number of
+			// completed iterations is that index - the only integer variable of the header that
+			// starts at 0 and grows by exactly 1 on every way round
+			var found []TV
+			for p, v := range phiVals {
+				if p.Block() != li.header || p.Comment == "rangeindex" {
+					continue
+				}
+				if b, ok := p.Type().Underlying().(*types.Basic); !ok || b.Info()&types.IsInteger == 0 {
+					continue
+				}
+				counting := len(p.Edges) >= 2
+				for ei, e := range p.Edges {
+					pred := li.header.Preds[ei]
+					if li.body[pred] {
+						inc, ok := e.(*ssa.BinOp)
+						if !ok || inc.Op != token.ADD || inc.X != ssa.Value(p) {
+							counting = false
+							break
+						}
+						c, ok := inc.Y.(*ssa.Const)
+						if !ok || c.Value == nil || c.Value.ExactString() != "1" {
+							counting = false
+							break
+						}
+					} else {
+						c, ok := e.(*ssa.Const)
+						if !ok || c.Value == nil || c.Value.ExactString() != "0" {
+							counting = false
+							break
+						}
+					}
+				}
+				if counting {
+					found = append(found, v)
+				}
+			}
+			if len(found) == 1 {
+				return found[0], true
+			}
+		}
 		if name == "$range" {
 			// the slice (or string) this range loop iterates over: its value was taken once,
 			// before the loop, and does not follow later assignments to the ranged variable
